@@ -356,7 +356,41 @@ class Gen:
         except LookupError as e:
             raise Undecided(f'lost anchor for {fid}: {e}')
         region_lost = None
-        if 'region_start' in kv:
+        if 'region_block' in kv:
+            # the region is the INSIDE of the brace block whose head starts on the (unique) line matching the regex -- e.g. a loop
+            # body, however its statements are written
+            lines = fsrc.split('\n')
+            lo, hi = it.line_start - 1, it.line_end
+            st = [k for k in range(lo, hi) if re.search(kv['region_block'], lines[k])]
+            a = b = None
+            if len(st) == 1:
+                head_idx = sum(len(l) + 1 for l in lines[:st[0]])
+                depth, q, open_idx = 0, head_idx, None
+                for kind_, s0, e0 in rs.tokenize(fsrc[head_idx:it.end]):
+                    if kind_ != 'punct':
+                        continue
+                    ch = fsrc[head_idx + s0]
+                    if ch in '([':
+                        depth += 1
+                    elif ch in ')]':
+                        depth -= 1
+                    elif ch == '{' and depth == 0:
+                        open_idx = head_idx + s0
+                        break
+                if open_idx is not None:
+                    close_idx = rs.match_brace(fsrc, open_idx)
+                    a = rs.line_of(fsrc, open_idx)          # 1-based line of `{`; region starts on the next line
+                    b = rs.line_of(fsrc, close_idx - 1) - 2  # 0-based index of the line before the closing `}`
+            if a is None or b is None or b < a:
+                region_lost = f'{fid}: region block /{kv["region_block"]}/ matches {len(st)} lines'
+                a, b = lo, lo
+            start_idx = sum(len(l) + 1 for l in lines[:a])
+            end_idx = sum(len(l) + 1 for l in lines[:b + 1])
+            region = fsrc[start_idx:end_idx]
+            tail = kv.get('tail', '')
+            synth = fsrc[:start_idx] + '{' + region.rstrip('\n') + ' ' + tail + '}' + fsrc[end_idx:]
+            it = rs.Item(synth, start_idx, start_idx, start_idx + len('{' + region.rstrip('\n') + ' ' + tail + '}'), kv['file'])
+        elif 'region_start' in kv:
             # a region of the function (consecutive whole lines, anchored by regexes) becomes the body of a wrapper
             # whose signature binds the free variables; `tail=` returns named locals (glue declared in DESIGN.md 2.2)
             lines = fsrc.split('\n')
